@@ -16,3 +16,6 @@ KNOWN_NAMES = frozenset([
     'parse', 'ref_path', 'register', 'reset_value', 'save', 'setdefault', 'short_help', 'to_basic', 'to_python',
     'to_tree', 'update', 'validate', 'validator', 'value_field', 'wrapper',
 ])
+
+# every class name of the package at the same commit
+KNOWN_CLASSES = frozenset(['AesProvider', 'AnyField', 'ApplicationModeField', 'BaseField', 'BoolField', 'BsonConfigFormat', 'BytesField', 'ChallengeField', 'Config', 'ConfigFormat', 'ConfigType', 'ConfigTypeField', 'ContainerValueMixin', 'DictField', 'DictProxy', 'DigestValue', 'EncryptionError', 'FeatureFlagField', 'FeatureFlagFieldMixin', 'Field', 'FilenameField', 'FloatField', 'HostnameField', 'IEncryptionProvider', 'IPv4AddressField', 'IPv4NetworkField', 'IncludeField', 'IncludeFieldMixin', 'InstanceMethodField', 'InstanceMethodFieldMixin', 'IntField', 'JsonConfigFormat', 'KeyFile', 'ListField', 'ListProxy', 'LogLevelField', 'NumberField', 'PickleConfigFormat', 'PortField', 'Schema', 'SecureField', 'StringField', 'UrlField', 'ValidationError', 'VirtualField', 'VirtualFieldMixin', 'XmlConfigFormat', 'XorProvider', 'YamlConfigFormat'])
